@@ -90,7 +90,7 @@ PROPS["C02"] = _std(
     "Explicit-state exploration of operator chains on the real Scalar type against Z/lZ, plus exhaustive corner alphabets for every constructor, for both the 52-bit and 29-bit limb backends.",
     "DESIGN.md section 4, C02",
     "explicit-state BFS (layered engine over stateright::Model machines) over scalar values + exhaustive corner-alphabet enumeration against a reference model",
-    lambda tier: [R("simd"), R("serial32"), R("simd", "rel-legacy")] if tier == "quick" else [R("simd", deep=True), R("serial32", deep=True), R("serial64"), R("fiat32"), R("fiat64"), R("simd", "rel-legacy"), R("serial32", "rel-legacy")],
+    lambda tier: [R("simd"), R("serial32"), R("simd", "rel-legacy"), R("fiat64")] if tier == "quick" else [R("simd", deep=True), R("serial32", deep=True), R("serial64"), R("fiat32"), R("fiat64"), R("simd", "rel-legacy"), R("serial32", "rel-legacy")],
 )
 
 PROPS["C03"] = _std(
@@ -181,7 +181,7 @@ PROPS["C16"] = _std(
     "Exhaustive over structured value alphabets and over a complete small alphabet of sequence shapes for every Deserialize impl.",
     "DESIGN.md section 4, C16",
     "exhaustive alphabet and sequence-shape enumeration against reference wire forms and the native decoders",
-    lambda tier: [R("simd")] if tier == "quick" else [R("simd"), R("serial32"), R("fiat64"), R("avx512")],
+    lambda tier: [R("simd"), R("serial32"), R("fiat64")] if tier == "quick" else [R("simd"), R("serial32"), R("fiat64"), R("avx512")],
 )
 
 
@@ -192,7 +192,7 @@ PROPS["C13"] = _std(
     "Explicit-state exploration of batch construction histories against the conjunction of RFC 8032 single verifications.",
     "DESIGN.md section 4, C13",
     "explicit-state BFS over batch histories against a reference model",
-    lambda tier: [R("simd"), R("simd", dispatch="serial"), R("serial32", "rel-notables"), R("avx512")] if tier == "quick" else T([R("simd", deep=True), R("simd", dispatch="serial"), R("serial32"), R("fiat64"), R("avx512"), R("avx512", dispatch="avx2")]),
+    lambda tier: [R("simd"), R("simd", dispatch="serial"), R("serial32", "rel-notables"), R("avx512"), R("fiat64")] if tier == "quick" else T([R("simd", deep=True), R("simd", dispatch="serial"), R("serial32"), R("fiat64"), R("avx512"), R("avx512", dispatch="avx2")]),
 )
 
 PROPS["C15"] = _std(
@@ -203,8 +203,8 @@ PROPS["C15"] = _std(
     "Exhaustive over structured adversarial alphabets for every untrusted-input entry point, on both build profiles.",
     "DESIGN.md section 4, C15",
     "exhaustive adversarial-alphabet enumeration under catch_unwind on release and checked builds",
-    lambda tier: [R("simd"), R("simd", "chk"), R("simd", dispatch="serial")] if tier == "quick" else
-                 [R("simd"), R("simd", "chk"), R("simd", dispatch="serial"), R("serial32"), R("serial32", "chk"), R("serial64", "chk"), R("fiat64", "chk"), R("fiat32", "chk"), R("avx512", "chk"), R("simd", "rel-legacy")],
+    lambda tier: [R("simd"), R("simd", "chk"), R("simd", dispatch="serial"), R("serial32"), R("fiat64")] if tier == "quick" else
+                 [R("simd"), R("simd", "chk"), R("simd", dispatch="serial"), R("serial32"), R("serial32", "chk"), R("serial64", "chk"), R("fiat64"), R("fiat64", "chk"), R("fiat32", "chk"), R("avx512", "chk"), R("simd", "rel-legacy")],
 )
 
 PROPS["C17"] = _std(
@@ -424,6 +424,6 @@ PROPS["C14"] = _std(
     "Exhaustive enumeration of bounded create/clone/use/zeroize/drop histories with an allocator-level observer; differential freed-heap comparison across secrets under every dispatch.",
     "DESIGN.md section 4, C14",
     "exhaustive enumeration of object lifecycles under a heap observer + differential freed-block comparison + enumeration of the cargo-feature lattice of the secret-holding types",
-    lambda tier: [R("simd"), R("simd", dispatch="serial"), R("serial32"), R("avx512")] if tier == "quick" else [R("simd"), R("simd", dispatch="serial"), R("serial32"), R("fiat64"), R("fiat32"), R("avx512"), R("avx512", dispatch="avx2"), R("avx512", dispatch="serial")],
+    lambda tier: [R("simd"), R("simd", dispatch="serial"), R("serial32"), R("avx512"), R("fiat64")] if tier == "quick" else [R("simd"), R("simd", dispatch="serial"), R("serial32"), R("fiat64"), R("fiat32"), R("avx512"), R("avx512", dispatch="avx2"), R("avx512", dispatch="serial")],
     post=_fx_post,
 )
